@@ -95,6 +95,8 @@ func (o Op) stmt(obj string) string {
 		return fmt.Sprintf("set %s:%s = %s;", h, o.Key, val)
 	case "add":
 		return fmt.Sprintf("add %s = %s;", h, val)
+	case "append":
+		return fmt.Sprintf("set %s += %s;", h, val)
 	case "unset":
 		return fmt.Sprintf("unset %s;", h)
 	case "unsetfield":
@@ -107,6 +109,8 @@ func (o Op) String() string {
 	switch o.Kind {
 	case "set", "add":
 		return fmt.Sprintf("%s %s=%s", o.Kind, o.Name, o.Value)
+	case "append":
+		return fmt.Sprintf("set %s+=%s", o.Name, o.Value)
 	case "setfield":
 		return fmt.Sprintf("set %s:%s=%s", o.Name, o.Key, o.Value)
 	case "unsetfield":
@@ -277,6 +281,18 @@ func laws(o Op, before, after snapshot) []engine.Finding {
 					add("set-read|"+spellRel(r)+"|"+valClass(o.Val), fmt.Sprintf("after `%s`, %s reads %q, want %q", o, r, after[r], o.Val))
 				}
 			}
+		case "append":
+			// (only in histories without add and without line breaks) the header reads as its former value, empty when
+			// it was not set, followed by the operand, and it is set afterwards even when both are empty
+			if !isField {
+				old := before[r]
+				if old == nullText && before[r+"?"] == "F" {
+					old = ""
+				}
+				if after[r] != old+o.Val {
+					add("append-read|"+spellRel(r)+"|"+valClass(o.Val)+"|onto:"+valClass(before[r]), fmt.Sprintf("after `%s`, %s reads %q, want %q", o, r, after[r], old+o.Val))
+				}
+			}
 		case "unset":
 			if after[r] != nullText || after[r+"?"] != "F" {
 				add("unset-read|"+spellRel(r)+"|"+fieldOrWhole(isField), fmt.Sprintf("after `%s`, %s reads %q (truthy=%s), want not set", o, r, after[r], after[r+"?"]))
@@ -288,6 +304,8 @@ func laws(o Op, before, after snapshot) []engine.Finding {
 					if after[r] != o.Val {
 						add("setfield-read|"+spellRel(r)+"|"+valClass(o.Val), fmt.Sprintf("after `%s`, %s reads %q, want %q", o, r, after[r], o.Val))
 					}
+				} else if strings.EqualFold(k, o.Key) {
+					// the same key in another letter case: the property does not say whether it is the same sub-field
 				} else if before[r] != after[r] || before[r+"?"] != after[r+"?"] {
 					add(frameClass("setfield-frame", spellRel(r)+"|value:"+valClass(o.Val), before, after, o.Name), fmt.Sprintf("`%s` changed the other sub-field %s from %q to %q", o, r, before[r], after[r]))
 				}
@@ -299,6 +317,7 @@ func laws(o Op, before, after snapshot) []engine.Finding {
 					if after[r] != nullText || after[r+"?"] != "F" {
 						add("unsetfield-read|"+spellRel(r), fmt.Sprintf("after `%s`, %s reads %q (truthy=%s), want not set", o, r, after[r], after[r+"?"]))
 					}
+				} else if strings.EqualFold(k, o.Key) {
 				} else if before[r] != after[r] || before[r+"?"] != after[r+"?"] {
 					add(frameClass("unsetfield-frame", spellRel(r), before, after, o.Name), fmt.Sprintf("`%s` changed the other sub-field %s from %q to %q", o, r, before[r], after[r]))
 				}
@@ -503,6 +522,50 @@ func gen17(tier string, emit func(Case)) {
 				}
 			}
 			rec2(nil)
+		}
+		// keys that differ in letter case only, next to an unrelated key: every history of up to 3 operations
+		if oi == 0 || oi == 4 || tier == "thorough" {
+			ck := []string{"foo", "FOO", "bar"}
+			var kops []Op
+			for _, n := range []string{"Foo", "fOO"} {
+				kops = append(kops, Op{Kind: "setfield", Name: n, Key: "foo", Value: `"1"`, Val: "1"}, Op{Kind: "setfield", Name: n, Key: "FOO", Value: `"2"`, Val: "2"}, Op{Kind: "unsetfield", Name: n, Key: "FOO"})
+			}
+			kops = append(kops, Op{Kind: "setfield", Name: "Foo", Key: "bar", Value: `"9"`, Val: "9"}, Op{Kind: "unsetfield", Name: "Foo", Key: "foo"})
+			var rec4 func(h []Op)
+			rec4 = func(h []Op) {
+				if len(h) > 0 {
+					emit(Case{Obj: ob.obj, Scope: ob.scope, Ops: append([]Op{}, h...), Keys: ck})
+				}
+				if len(h) == 3 {
+					return
+				}
+				for _, o := range kops {
+					rec4(append(h, o))
+				}
+			}
+			rec4(nil)
+		}
+		// `set H += V` (append) next to set / unset / sub-field writes, no add and no line breaks: every history of up to 3 operations
+		{
+			var aops []Op
+			for _, n := range []string{"Foo", "fOO"} {
+				aops = append(aops, Op{Kind: "append", Name: n, Value: `"x"`, Val: "x"}, Op{Kind: "append", Name: n, Value: `""`, Val: ""})
+			}
+			aops = append(aops, Op{Kind: "set", Name: "Foo", Value: `"t"`, Val: "t"}, Op{Kind: "set", Name: "fOO", Value: `""`, Val: ""}, Op{Kind: "unset", Name: "fOO"},
+				Op{Kind: "setfield", Name: "Foo", Key: "a", Value: `"v"`, Val: "v"}, Op{Kind: "append", Name: "Bar", Value: `"y"`, Val: "y"}, Op{Kind: "set", Name: "Foo", Value: "OBJ.http.Never-Set", Val: notset})
+			var rec5 func(h []Op)
+			rec5 = func(h []Op) {
+				if len(h) > 0 {
+					emit(Case{Obj: ob.obj, Scope: ob.scope, Ops: append([]Op{}, h...)})
+				}
+				if len(h) == 3 {
+					return
+				}
+				for _, o := range aops {
+					rec5(append(h, o))
+				}
+			}
+			rec5(nil)
 		}
 		// the Cookie request header (own code path: cookies are kept apart, the separator is ";"): every history of up to 3 operations
 		if ob.obj == "req" {
